@@ -56,6 +56,8 @@ VerdictArray(r) ==
 VerdictDisreg(r) ==
     IF ~CloseI(r.total, r.s, r.tail) THEN "disregistry_does_not_accumulate_to_one_burgers_vector"
     ELSE IF r.perp > r.tail THEN "disregistry_has_a_component_that_is_not_the_burgers_vector"
+    \* periodic arrays: the profile runs from (nearly) nothing to (nearly) one Burgers vector, not between two shifted values
+    ELSE IF "lo" \in DOMAIN r /\ (~CloseI(r.lo, 0, r.tail) \/ ~CloseI(r.hi, r.s, r.tail)) THEN "disregistry_profile_does_not_run_from_zero_to_one_burgers_vector"
     ELSE "ok"
 VerdictDisl(r) == CASE r.ev = "monopole" -> VerdictMonopole(r) [] r.ev = "array" -> VerdictArray(r) [] r.ev = "disreg" -> VerdictDisreg(r) [] r.ev = "boundary" -> VerdictBoundary(r) [] OTHER -> "unknown_event"
 ====
